@@ -25,6 +25,11 @@ def run(ctx):
     if r["violated"] != "NoConflictingAccess":
         raise Undecided("non-vacuity witness failed: pointer receivers should violate NoConflictingAccess in the model")
     ctx.cover["non_vacuity"] = "with PointerReceiver = TRUE TLC exhibits two goroutines inside conflicting accesses to the shared derived fields"
+    ctx.model_check("MC_Process", "MC_Process.cfg", "process-wide limits under every interleaving of 2 goroutines x 2 calls: LimitsAreTheCallers, "
+                    "OnlyTheCallerChangesLimits, LibraryRemembersNothing", workers=vlib.NCPU)
+    r = ctx.tlc("MC_Process", "MC_Process_raise2.cfg", workers=4)
+    if r["violated"] != "ResultFollowsRecipeAndConfiguredLimits":
+        raise Undecided("non-vacuity witness failed: limits raised during a call should make a concurrent call's outcome depend on it in the model")
     # deterministic part: specification-generated interleavings replayed with the draw hook as scheduler gate
     import random
     rng = random.Random(ctx.seed)
